@@ -255,6 +255,15 @@ def run(rep, tier):
         if h == "sha2":
             nsel = max(nsel, selector_table(rep, us[s_.label]))
     rep.floor("SHA-2 selector arms", nsel, 4)
+    # the compression loops HMAC relies on, in every build variant analysed here (rules shared with C04)
+    from props import c04
+    nls = 0
+    for (h, lab, s_) in specs:
+        own = "include/" + hashes.HASHES[h]["hdr"]
+        nls += c04.loop_save_rule(rep, us[s_.label], own)
+        c04.block_step_rule(rep, us[s_.label], own)
+        c04.bulk_advance_rule(rep, us[s_.label], own)
+    rep.floor("per-block state copies", nls, 2)
     u = us["radius.h"]
     nr = 0
     for fn in u.function_list:
